@@ -207,6 +207,10 @@ func init() {
 			return tuple{s, iface{}}
 		},
 		"path/filepath.EvalSymlinks": func(fr *frame, a []value) value { return tuple{a[0], iface{}} },
+		"verif/symx.MapOrder": func(fr *frame, a []value) value {
+			fr.i.mapOrderSym = a[0].(bool)
+			return nil
+		},
 		"verif/symx.SoftFuel": func(fr *frame, a []value) value {
 			fr.i.softFuelAt = fr.i.fuel - asInt64(a[0])
 			return nil
